@@ -154,12 +154,19 @@ def gen_case(rng, cid, big=False):
             break
     kind = rng.choice(KINDS)
     sparse = rng.choice([1.0, 1.0, 0.8, 0.5])
+    return fill_case(rng, cid, dims, monodim, kind, sparse, big)
+
+def fill_case(rng, cid, dims, monodim, kind, sparse, big=False, amp_override=None):
+    """data, weights and probe points of a case whose dimensions are fixed (shared by the random and the structured family)"""
+    ndim = len(dims)
     if all(d["smooth"] == 0.0 for d in dims) and sparse < 1.0:
         dims[monodim]["smooth"] = 2.0 ** -3            # keep the problem well-posed when cells are missing
     shape = [len(d["coords"]) for d in dims]
     # values
     amp = rng.choice([1.0, 1.0, 8.0, 1000.0, 2.0 ** -10])
     noise = rng.choice([0.0, 0.05, 0.3, 1.0])
+    if amp_override is not None:
+        amp = amp_override
     if kind == "monospline":
         # coefficients with non-negative increments along monodim (first one included), exact 1-D bases
         na = [nspl_of(d) for d in dims]
@@ -223,8 +230,11 @@ def gen_case(rng, cid, big=False):
         entries.append([[0] * ndim, amp, 1.0])
     rng.shuffle(entries)
     # probe points in the fully supported box: knots, abscissae, random, the upper end
+    # (a table with fewer than 2*order+2 knots in some dimension has an EMPTY fully supported region: nothing to probe; the
+    #  coefficient statement (i), the solver statements and the system correspondence are checked all the same)
+    evaluable = all(d["knots"][d["order"]] < d["knots"][nspl_of(d)] for d in dims)
     pts = []
-    for e in range(10 if not big else 14):
+    for e in range((10 if not big else 14) if evaluable else 0):
         p = []
         for d in dims:
             o, na_ = d["order"], nspl_of(d)
@@ -249,6 +259,168 @@ def gen_case(rng, cid, big=False):
         pts.append(p)
     return {"id": cid, "monodim": monodim, "dims": dims, "entries": entries, "points": pts, "kind": kind, "flags": 0,
             "sparse": sparse, "amp": amp, "noise": noise}
+
+# ------------------------------------------------------------------------------------------------
+# the STRUCTURED family (round 3).  The random family draws every axis independently (knots and abscissae from large sets: two axes
+# are never the same), always with at least order+1 basis functions and as many abscissae.  Classes at which the code splits cases
+# and that it therefore never produced:
+#   * glamfit_complex builds one basis / box product per axis and converts ONLY the monotonic one to T-splines: what if another axis
+#     has the very same order, knots and abscissae (twin axes - the common "square table")?  monodim the first / the second of the pair /
+#     the third axis; near-twins (one knot, one abscissa, the order differs) as the negative control;
+#   * the back-transformation's strides stride1/stride2 and the loop `for j = 1 .. n_monodim-1' with n_monodim = 1 (no iteration) or 2,
+#     other axes of length 1 (stride factors 1), calc_penalty / kronecker_product with 1x1 and 2x2 factors, penalty order = nsplines
+#     (difference matrix without rows), cholmod_tril(1);
+#   * a data grid of length 1 in some dimension; very unequal axis lengths (mixed-radix walks of slicemultiply and of the
+#     cumulative sum).
+# The theorems (C10_backtransform_spec, C10_cumsum_monotone*, C10_tsystem_is_congruence) hold for every shape; the extracted model
+# (glam_backtransform) is run on all of these.  A table with an axis of fewer than 2*order+2 knots cannot be evaluated (empty fully
+# supported region): no derivative probes there, everything else is compared.
+from C09 import distinct_knots, pick_coords
+
+def dim_fixed(rng, order, nspl, porder, smooth, npts, plain=False):
+    knots = distinct_knots(rng, nspl + order + 1)
+    return {"order": order, "porder": porder, "smooth": smooth, "knots": knots, "coords": pick_coords(rng, knots, order, nspl, npts, plain=plain)}
+
+def filler_dim(rng, maxspl):
+    order = rng.choice([1, 1, 2, 2, 3])
+    nspl = rng.rint(order + 1, max(maxspl, order + 1))
+    porder = rng.rint(0, min(order, 3))
+    return dim_fixed(rng, order, nspl, porder, rng.choice([0.0, 2.0 ** -10, 2.0 ** -3, 1.0, 2.0 ** 6]), nspl + rng.choice([0, 1, 3]), plain=True)
+
+NONZERO_SMOOTH = [2.0 ** -10, 2.0 ** -3, 1.0, 1.0, 2.0 ** 6]
+POSITIONS = [(1, 0), (2, 0), (2, 1), (3, 0), (3, 1), (3, 2)]
+
+def struct_plan(rng, tier):
+    plan = []
+    # twin axes: every pair, the monotonic dimension the first / the second of the pair / the third axis
+    roles = [(2, (0, 1), 0), (2, (0, 1), 1)]
+    for pair in ((0, 1), (0, 2), (1, 2)):
+        for md in (0, 1, 2):
+            roles.append((3, pair, md))
+    for nd, pair, md in roles:
+        # exact twins three times: data that make the constraint ACTIVE (first sentence at stake), data from a spline with positive
+        # increments and (nearly) no smoothing, which leave it INACTIVE (second sentence at stake), any data; near-twins as the control
+        for near, kinds in ((None, ["decreasing", "negative", "oscillating", "step"]), (None, ["monospline!"]), (None, KINDS),
+                            ("knot", KINDS), ("abscissa", KINDS), ("order", KINDS)):
+            plan.append({"cls": "twin", "ndim": nd, "pair": pair, "monodim": md, "near": near, "kinds": kinds})
+    # axes with one and with two basis functions: every legal (order, penalty order), zero / non-zero smoothing; the axis position
+    # and whether it is the monotonic one rotate (quick) or are enumerated (thorough)
+    combos = []
+    for nspl in (1, 2):
+        for order in (1, 2, 3):
+            for porder in range(0, min(order, nspl) + 1):
+                for sm in (False, True):
+                    combos.append((nspl, order, porder, sm))
+    places = [(1, 0, True)] + [(nd, pos, mono) for nd, pos in POSITIONS[1:] for mono in (True, False)]
+    shift = rng.below(len(places))
+    for q, (nspl, order, porder, sm) in enumerate(combos):
+        pl = places if tier != "quick" else [places[(shift + 5 * q + r * 2) % len(places)] for r in range(6)]
+        for nd, pos, mono in pl:
+            plan.append({"cls": "small-axis", "nspl": nspl, "order": order, "porder": porder, "smooth_on": sm, "ndim": nd, "pos": pos, "mono": mono})
+    for nd, pos in POSITIONS:
+        for mono in ((True,) if nd == 1 else (True, False)):
+            for nspl in (1, 2):
+                plan.append({"cls": "single-abscissa", "nspl": nspl, "ndim": nd, "pos": pos, "mono": mono})
+    for nd, pos in POSITIONS[1:]:
+        for mono in (True, False):
+            plan.append({"cls": "unequal", "short": 1 + (pos + nd + mono) % 2, "ndim": nd, "pos": pos, "mono": mono})
+    return plan
+
+def gen_case_struct(rng, cid, desc):
+    nd = desc["ndim"]
+    cap = {1: 6, 2: 5, 3: 3}[nd]
+    dims = [filler_dim(rng, cap) for _ in range(nd)]
+    cls = desc["cls"]
+    kind = rng.choice(KINDS)
+    amp_override = None
+    if cls == "twin":
+        i, j = desc["pair"]
+        monodim = desc["monodim"]
+        kind = rng.choice(desc["kinds"])
+        order = rng.choice([1, 1, 2, 2, 3]) if desc["kinds"] != ["monospline!"] else rng.choice([1, 1, 2])
+        nspl = rng.rint(2, 5 if nd == 2 else 3)
+        a = dim_fixed(rng, order, nspl, rng.rint(0, min(order, nspl, 3)), rng.choice([0.0, 2.0 ** -10, 2.0 ** -3, 1.0]), nspl + rng.choice([0, 1, 2, 4]), plain=True)
+        b = json.loads(json.dumps(a))
+        near = desc["near"]
+        if near == "knot":
+            kn = b["knots"]
+            q = rng.below(len(kn))
+            lo = kn[q - 1] if q > 0 else kn[q] - 1.0
+            hi = kn[q + 1] if q + 1 < len(kn) else kn[q] + 1.0
+            kn[q] = rng.choice([(lo + kn[q]) / 2, (kn[q] + hi) / 2, nextafter(kn[q], hi)])      # still sorted and distinct
+        elif near == "abscissa":
+            q = rng.below(len(b["coords"]))
+            b["coords"][q] = rng.choice([nextafter(b["coords"][q], b["knots"][-1] + 1.0), b["coords"][q] + 1.0 / 64])
+        elif near == "order":
+            b["order"] = order + 1 if order < 3 else order - 1            # same knots and grid, another order
+            b["porder"] = min(b["porder"], b["order"], nspl_of(b))
+            if nspl_of(b) < 1:
+                b["order"] = order
+        if rng.chance(0.5):
+            b["porder"] = rng.rint(0, min(b["order"], nspl_of(b), 3))
+            b["smooth"] = rng.choice([0.0, 2.0 ** -3, 1.0])
+        dims[i], dims[j] = a, b
+        if kind == "monospline!":
+            # values well above the solver's absolute exit tolerance, so that "constraint inactive" can be certified
+            kind = "monospline"
+            amp_override = rng.choice([8.0, 1000.0])
+            for d in dims:
+                d["smooth"] = rng.choice([0.0, 0.0, 2.0 ** -10])
+    else:
+        pos = desc["pos"]
+        monodim = pos if desc["mono"] else rng.choice([k for k in range(nd) if k != pos])
+        if cls == "small-axis":
+            sm = rng.choice(NONZERO_SMOOTH) if desc["smooth_on"] else 0.0
+            nspl = desc["nspl"]
+            dims[pos] = dim_fixed(rng, desc["order"], nspl, desc["porder"], sm, rng.choice([1, nspl, nspl + 1, nspl + 3]), plain=True)
+        elif cls == "single-abscissa":
+            nspl = desc["nspl"]
+            order = rng.choice([1, 2, 3])
+            dims[pos] = dim_fixed(rng, order, nspl, rng.rint(0, 1), rng.choice(NONZERO_SMOOTH) if nspl > 1 else rng.choice([0.0] + NONZERO_SMOOTH), 1, plain=True)
+        elif cls == "unequal":
+            for k in range(nd):
+                o = rng.choice([1, 2])
+                dims[k] = dim_fixed(rng, o, desc["short"], rng.rint(0, min(o, desc["short"])), rng.choice([0.0, 2.0 ** -3, 1.0]), rng.rint(1, 3), plain=True)
+            order = rng.choice([1, 2, 3])
+            nlong = rng.rint(10, 14) if nd == 2 else rng.rint(8, 10)
+            dims[pos] = dim_fixed(rng, order, nlong, rng.rint(0, order), rng.choice([0.0, 2.0 ** -10, 2.0 ** -3, 1.0]), nlong + rng.rint(0, 4), plain=True)
+    sparse = rng.choice([1.0, 1.0, 1.0, 0.8])
+    if all(d["smooth"] == 0.0 for d in dims) and sparse < 1.0:
+        sparse = 1.0
+    c = fill_case(rng, cid, dims, monodim, kind, sparse, amp_override=amp_override)
+    c["family"] = cls
+    return c
+
+def axis_classes(c):
+    """the structural classes a case falls into, MEASURED on the case (not taken from the plan)"""
+    dims, md = c["dims"], c["monodim"]
+    nd = len(dims)
+    ns = [nspl_of(d) for d in dims]
+    out = []
+    for k, d in enumerate(dims):
+        pos = "only" if nd == 1 else "first" if k == 0 else "last" if k == nd - 1 else "middle"
+        role = "monotonic" if k == md else "other"
+        if ns[k] <= 2:
+            out.append("%s axis with %d basis function%s, %s position, penalty order %d%s, %s smoothing" % (
+                role, ns[k], "" if ns[k] == 1 else "s", pos, d["porder"], " (= nsplines)" if d["porder"] == ns[k] else "", "non-zero" if d["smooth"] != 0.0 else "zero"))
+        if len(d["coords"]) == 1:
+            out.append("data grid of length 1 along %s %s axis" % ("the" if k == md else "an", role))
+        if len(d["knots"]) < 2 * d["order"] + 2:
+            out.append("axis with fewer than 2*order+2 knots (table not evaluable: no derivative probes)")
+    for i in range(nd):
+        for j in range(i + 1, nd):
+            a, b = dims[i], dims[j]
+            where = "monodim = first of the pair" if md == i else "monodim = second of the pair" if md == j else "monodim = the third axis"
+            if a["order"] == b["order"] and a["knots"] == b["knots"] and a["coords"] == b["coords"]:
+                out.append("twin axes (same order, knots, abscissae), %s, ndim %d" % (where, nd))
+            elif len(a["knots"]) == len(b["knots"]) and len(a["coords"]) == len(b["coords"]) and a["order"] == b["order"] and \
+                    sum(x != y for x, y in zip(a["knots"], b["knots"])) + sum(x != y for x, y in zip(a["coords"], b["coords"])) == 1:
+                out.append("near-twin axes (one %s differs), %s" % ("knot" if a["knots"] != b["knots"] else "abscissa", where))
+            elif a["knots"] == b["knots"] and a["coords"] == b["coords"]:
+                out.append("near-twin axes (same knots and abscissae, order differs), %s" % where)
+    if nd >= 2 and max(ns) >= 5 * max(1, min(ns)):
+        out.append("very unequal axis lengths (max/min nsplines >= 5), monotonic axis %s" % ("the long one" if ns[md] == max(ns) else "a short one"))
+    return out
 
 # ------------------------------------------------------------------------------------------------
 def run_impl(exe, cases, timeout=6, restarts=None):
@@ -562,26 +734,43 @@ def analyse(args):
     # (iv-a) solver level: the exact solution z of the captured T-basis system; strictly positive => NNLS must return it
     ATf = [[Fr(v) for v in row] for row in AT]
     rTf = [Fr(v) for v in rT]
-    z, eps, ninv, why = solve_certified(ATf, rTf)
-    if z is None:
+    def tsys_bounds(Am, rv):
+        """exact solution, certified norms and the solver-exit distance bound of a T-basis system; (None, why) when singular"""
+        z_, eps_, ninv_, why_ = solve_certified(Am, rv)
+        if z_ is None:
+            return None, why_
+        normA_ = max(sum(abs(v) for v in row) for row in Am)
+        kappa_ = normA_ * ninv_
+        zmax_ = max(abs(v) for v in z_) if z_ else Fr(0)
+        rmax_ = max([abs(v) for v in rv] + [Fr(0)])
+        kkt_tol = Fr(n) * Fr(2) ** -52 * 100000
+        resid_bound = n * kkt_tol * max(Fr(1), normA_) + 64 * n * U53 * kappa_ * (normA_ * zmax_ + rmax_)
+        return {"z": z_, "kappa": kappa_, "zmax": zmax_, "dist_bound": 4 * n * ninv_ * resid_bound, "illcond": kappa_ * 64 * n * U53 > Fr(1, 1000)}, None
+    tb, why = tsys_bounds(ATf, rTf)
+    if tb is None:
         st["illposed"] = why
-        return c["id"], fails, st
-    normA = max(sum(abs(v) for v in row) for row in ATf)
-    kappa = normA * ninv
-    st["kappa"] = float(kappa)
+    else:
+        st["kappa"] = float(tb["kappa"])
     if any(v != v or abs(v) == math.inf for v in x):
-        return c["id"], fails, st          # NaN/inf from the solver on a certified non-singular system: already reported by (ii)
-    xf = [Fr(v) for v in x]
-    zmax = max(abs(v) for v in z) if z else Fr(0)
-    rmax = max([abs(v) for v in rTf] + [Fr(0)])
-    kkt_tol = Fr(n) * Fr(2) ** -52 * 100000
-    resid_bound = n * kkt_tol * max(Fr(1), normA) + 64 * n * U53 * kappa * (normA * zmax + rmax)
-    dist_bound = 4 * n * ninv * resid_bound
-    st["zmin_rel"] = float(min(z) / zmax) if zmax else 0.0
-    if kappa * 64 * n * U53 > Fr(1, 1000):
-        st["illcond"] = True
+        return c["id"], fails, st          # NaN/inf from the solver: already reported by (ii) when the system is certified non-singular
+    if tb is not None:
+        st["zmin_rel"] = float(min(tb["z"]) / tb["zmax"]) if tb["zmax"] else 0.0
+        if tb["illcond"]:
+            st["illcond"] = True
+    # the captured T-system is NOT what the theorems say it is (a (vi) disagreement was just recorded) and is singular / ill-conditioned:
+    # the second sentence is still judged, with the bounds of the system that SHOULD have been solved, L' A L (exact) - otherwise a
+    # corrupted system would switch the property's own oracle off
+    mismatch = any(sig.startswith("C10:tsystem:") or sig == D28 for sig, _, _ in fails)
+    if (tb is None or tb["illcond"]) and mismatch and have_free:
+        tb2, _ = tsys_bounds(expect, rl)
+        if tb2 is not None and not tb2["illcond"]:
+            st["second_sentence_bounds_from_expected_system"] = True
+            tb = dict(tb2, solver_part=False)
+    if tb is None or tb["illcond"]:
         return c["id"], fails, st
-    if min(z) > 2 * dist_bound and min(z) > zmax * Fr(1, 10 ** 9):
+    z, kappa, zmax, dist_bound = tb["z"], tb["kappa"], tb["zmax"], tb["dist_bound"]
+    xf = [Fr(v) for v in x]
+    if tb.get("solver_part", True) and min(z) > 2 * dist_bound and min(z) > zmax * Fr(1, 10 ** 9):
         st["inactive_T"] = True
         dist = max(abs(a - b) for a, b in zip(xf, z))
         st["inactive_dist_rel"] = float(dist / zmax)
@@ -680,8 +869,12 @@ def process(cases, exe_i, exe_m, pool, out, cov, exact_limit):
         for key in ("kind:" + c["kind"], "ndim:%d" % len(c["dims"]), "monodim:%d" % c["monodim"], "order_mono:%d" % c["dims"][c["monodim"]]["order"],
                     "active" if st.get("n_zero_increments", 0) > 0 else "all-increments-positive",
                     "inactive-checked" if (st.get("inactive") or st.get("inactive_T")) else ("illposed" if st.get("illposed") else ("illcond" if st.get("illcond") else "constraint-active-or-unchecked")),
-                    "maxiter" if st.get("maxiter") else "normal-exit", "sparse" if c.get("sparse", 1.0) < 1.0 else "full-grid"):
+                    "maxiter" if st.get("maxiter") else "normal-exit", "sparse" if c.get("sparse", 1.0) < 1.0 else "full-grid",
+                    "family:" + c.get("family", "random")):
             hist[key] = hist.get(key, 0) + 1
+        sc = cov.setdefault("structural_classes", {})
+        for cl in axis_classes(c):
+            sc[cl] = sc.get(cl, 0) + 1
         cov["derivative_evals"] += st.get("evals", 0)
         if st.get("tsys_rel") is not None:
             cov["tsys_checked"] += 1
@@ -748,7 +941,17 @@ def run(info, out):
                 done += k; bi += 1
                 if nf and nbase < 10 * (360 if tier == "quick" else 3000) and not info["proof_ok"]:
                     pass
-            cov["generated_cases"] = done
+            # the structured family (own random stream; enumerated classes, see struct_plan)
+            rs = Rng(seed).fork("C10-structured")
+            reps = 1 if info["proof_ok"] else 5
+            nstruct = 0
+            for rep in range(reps if tier == "quick" else 2 * reps):
+                plan = struct_plan(rs.fork("plan%d" % rep), tier)
+                scases = [gen_case_struct(rs.fork("s%d_%d" % (rep, i)), "s%d_%d" % (rep, i), desc) for i, desc in enumerate(plan)]
+                process(scases, exe_i, exe_m, pool, out, cov, 90 if tier == "quick" else 130)
+                nstruct += len(scases)
+            cov["structured_cases"] = nstruct
+            cov["generated_cases"] = done + nstruct
     finally:
         pool.close(); pool.join()
     if not info["proof_ok"] and not info.get("replay"):
@@ -761,7 +964,13 @@ def run(info, out):
     cov["distinct_nontrivial"] = len(cov.pop("_hashes"))
     cov["rule"] = ("real monotone fits (1..3 dims, every monodim, orders 1..4, penalty orders 0..3, smoothing 0..64, irregular distinct knots, full or sparse grids, "
                    "random weights incl. 0; data kinds: noisy increasing, decreasing, oscillating, step, negative, constant, spline with non-negative increments); non-trivial = "
-                   "the NNLS solution has at least one increment exactly 0 (constraint active) or the coefficients strictly increase somewhere; distinct by the bits of the whole case")
+                   "the NNLS solution has at least one increment exactly 0 (constraint active) or the coefficients strictly increase somewhere; distinct by the bits of the whole case. "
+                   "STRUCTURED family (round 3; input_distribution `family:*' and structural_classes give the measured counts per class): twin axes (two dimensions with the same order, bitwise-equal knots and "
+                   "abscissae) for every pair of axes of 2- and 3-dimensional fits with the monotonic dimension the first / the second of the pair / the third axis, each with constraint-activating data, with "
+                   "spline data that leave the constraint inactive, and with any data; near-twins (one knot / one abscissa / the order differs) as controls; axes with one and two basis functions (nknots = order+2, "
+                   "order+3) x every legal penalty order (= nsplines included) x zero / non-zero smoothing, as the monotonic axis and as another axis, in every position; a data grid of length 1 along the "
+                   "monotonic / another axis; one long axis (8..14) next to axes with 1-2 basis functions; tables with fewer than 2*order+2 knots in a dimension get no derivative probes (empty fully "
+                   "supported region), every other check runs on them")
     if cov["harness_restarts"]:
         out.notes.append("harness restarted %d time(s) by the progress watchdog (lost wake-up in walk_descents, C12/D7, or a crash: see hangs_or_crashes)" % cov["harness_restarts"])
     return cov
